@@ -183,7 +183,20 @@ def showRun (m : MState) (groups : List (List Key)) (withFlags : Bool) : MState 
     let (c, mx) := showChanged newObs
     ({ m with st := st1 }, s!"r={rpart} x={showCounts newLog} c={c} m={mx} {showKeys st1 m.defs}")
 
+/-- `false`: `EvictWithCleanup` looks its keys up BEFORE taking the exclusive lock, as the code
+    does. `true`: model of the candidate fix (lookup under the lock; see the builder's report). -/
+def incrEvictLookupUnderLock : Bool := true
+
 def parseGroups (s : String) : Option (List (List Key)) := (s.splitOn "|").mapM parseInts
+
+/-- `k=v,k=v` or `-` -/
+def parseChanges (s : String) : Option (List (Nat × Nat)) :=
+  if s == "-" then some [] else
+  (s.splitOn ",").mapM (fun kv => match kv.splitOn "=" with
+    | [k, v] => match k.toNat?, v.toNat? with
+      | some k, some v => some (k, v)
+      | _, _ => none
+    | _ => none)
 
 def incrStep (m : MState) (line : String) : MState × String :=
   match words line with
@@ -212,6 +225,24 @@ def incrStep (m : MState) (line : String) : MState × String :=
       if groups.length < 2 || !(groups.all (·.all (fun k => (m.defs.lookup k).isSome))) then (m, "bad-op")
       else showRun m groups false
     | none => (m, "bad-op")
+  | ["runev", g, ks, ch] => match g.toNat?, parseInts ks, parseChanges ch with
+    | some g, some ks, some chs =>
+      if !(m.defs.lookup g).isSome then (m, "bad-op") else
+      -- `EvictWithCleanup` looks its keys up when it is ENTERED (before taking the lock): at that
+      -- moment the in-flight Run has created the task of its root g and nothing else
+      let present := if incrEvictLookupUnderLock then ks
+        else ks.filter (fun k => k == g || (m.st.tasks.get k).isSome)
+      -- the Run holds the read lock: it completes first, on the old inputs
+      let (m1, ansRun) := showRun m [[g]] true
+      if ansRun == "model-stuck" then (m, "model-stuck") else
+      -- then the eviction works on the tasks it had found, and the cleanup changes the inputs
+      let env' := chs.foldl (fun e (kv : Nat × Nat) => setEnv e kv.1 (Int.ofNat kv.2)) m1.env
+      match evict (4 ^ (m.defs.length + 1) + ks.length + 2) m1.st present with
+      | some st' =>
+        let m2 := { m1 with st := st', env := env' }
+        (m2, ((ansRun.splitOn " keys=").headD "") ++ " " ++ showKeys st' m.defs)
+      | none => (m, "model-stuck")
+    | _, _, _ => (m, "bad-op")
   | ["dump"] => (m, showDump m.st m.defs)
   | _ => (m, "bad-op")
 
@@ -269,6 +300,9 @@ structure SState where
   cached : List (Key × List Key) := []
   dirty : List Key := []
   lost : Bool := false
+  /-- some earlier `runev` evicted a key that had no task when the eviction was entered and that
+      the in-flight Run then memoized (only used to word a later staleness verdict) -/
+  unmemoizedEvict : Bool := false
 
 def isCached (s : SState) (k : Key) : Bool := (s.cached.lookup k).isSome
 
@@ -281,6 +315,84 @@ def dependentsLoop : Nat → List (Key × List Key) → List Key → List Key
 
 def field (ans : String) (name : String) : Option String :=
   ((words ans).find? (fun w => w.startsWith (name ++ "="))).map (fun w => (w.drop (name.length + 1)).toString)
+
+/-- what a run of `groups` must look like from oracle state `s` (inputs `s.env`, memoized
+    `s.cached`): the state afterwards and the fields r, x, c, keys -/
+def specExpect (s : SState) (groups : List (List Key)) (withFlags : Bool) :
+    Option (SState × String × String × String × String) :=
+  let fuel := s.defs.length + 2
+  let allRoots := groups.flatten
+  match allRoots.mapM (fun k => naive s.defs s.env fuel k) with
+  | none => none
+  | some _ =>
+    let reachable := reach s.defs s.env (4 ^ (s.defs.length + 1) + allRoots.length + 2) allRoots []
+    let executed := sortDedup (reachable.filter (fun k => !isCached s k))
+    let valOf (k : Key) : String := ((naive s.defs s.env fuel k).map (fun p => showRes p.1)).getD "?"
+    let flagOf (k : Key) : String := if executed.contains k then ":1" else ":0"
+    let wantR := "|".intercalate (groups.map (fun g =>
+      if g.isEmpty then "-" else ",".intercalate (g.map (fun k => valOf k ++ (if withFlags then flagOf k else "")))))
+    let wantX := if executed.isEmpty then "-" else ",".intercalate (executed.map (fun k => s!"{k}:1"))
+    let readsOf (k : Key) : List Key := ((naive s.defs s.env fuel k).map (·.2)).getD []
+    let observed := sortDedup (allRoots ++ executed.flatMap readsOf)
+    let wantC := if observed.isEmpty then "-" else
+      ",".intercalate (observed.map (fun k => s!"{k}:{if executed.contains k then 1 else 0}"))
+    let cached' := s.cached ++ executed.map (fun k => (k, readsOf k))
+    some ({ s with cached := cached' }, wantR, wantX, wantC, joinNats (sortDedup (cached'.map (·.1))))
+
+/-- atomic eviction of `ks` (those memoized, with their transitive dependents) together with
+    the input changes `chs` -/
+def specEvictChange (s : SState) (ks : List Key) (chs : List (Nat × Nat)) : SState :=
+  let dead := dependentsLoop (s.cached.length + 1) s.cached (ks.filter (isCached s))
+  let cached' := s.cached.filter (fun p => !dead.contains p.1)
+  let env' := chs.foldl (fun e (kv : Nat × Nat) => setEnv e kv.1 (Int.ofNat kv.2)) s.env
+  -- an input changed without its memoized reader being evicted leaves the state stale
+  let stale := chs.filter (fun kv => envOf s.env kv.1 != Int.ofNat kv.2 &&
+    ((s.defs.lookup kv.1).map (·.env)).getD false && cached'.any (fun p => p.1 == kv.1))
+  { s with cached := cached', env := env', dirty := stale.map (·.1) ++ s.dirty.filter (fun k => !dead.contains k) }
+
+/-- `runev`: a Run and an atomic EvictWithCleanup issued concurrently. The eviction takes the
+    executor's exclusive lock, so the pair must be equivalent to one of the two sequential
+    orders: Run then Evict(+input change), or Evict(+input change) then Run. -/
+def specRunEv (s : SState) (g : Key) (ks : List Key) (chs : List (Nat × Nat)) (ans : String) : SState × String :=
+  if s.lost then (s, "skip") else
+  if !s.dirty.isEmpty then ({ s with lost := true }, "skip") else
+  match field ans "r", field ans "x", field ans "c", field ans "m", field ans "keys" with
+  | some r, some x, some c, some mx, some keys =>
+    let keysOf (t : SState) : String := joinNats (sortDedup (t.cached.map (·.1)))
+    -- order A: Run; Evict
+    let a := (specExpect s [[g]] true).map (fun (s1, wr, wx, wc, _) =>
+      let s2 := specEvictChange s1 ks chs
+      (s2, wr, wx, wc, keysOf s2))
+    -- order B: Evict; Run
+    let b := specExpect (specEvictChange s ks chs) [[g]] true
+    let agrees (e : Option (SState × String × String × String × String)) : Option SState :=
+      match e with
+      | some (s', wr, wx, wc, wk) => if r == wr && x == wx && c == wc && mx == "-" && keys == wk then some s' else none
+      | none => none
+    match a, b with
+    | none, none => (s, "skip")
+    | _, _ =>
+      let risky (s' : SState) : SState :=
+        if ks.any (fun k => !isCached s k && k != g && isCached s' k) then { s' with unmemoizedEvict := true } else s'
+      match agrees a with
+      | some s' => (s', "holds")
+      | none =>
+        match agrees b with
+        | some s' => (risky s', "holds")
+        | none =>
+          -- diagnose: did the eviction only miss keys that had no task when it was entered and were
+          -- memoized by the in-flight Run?
+          let a0 := (specExpect s [[g]] true).map (fun (s1, wr, wx, wc, _) =>
+            let s2 := specEvictChange s1 (ks.filter (fun k => isCached s k || k == g)) chs
+            (s2, wr, wx, wc, keysOf s2))
+          let wantA := (a.map (fun e => s!"r={e.2.1} x={e.2.2.1} keys={e.2.2.2.2}")).getD "-"
+          let wantB := (b.map (fun e => s!"r={e.2.1} x={e.2.2.1} keys={e.2.2.2.2}")).getD "-"
+          match agrees a0 with
+          | some _ => ({ s with lost := true },
+              s!"fails concurrent-evict-missed-key-memoized-by-inflight-run got[r={r} x={x} keys={keys}] run-then-evict[{wantA}] evict-then-run[{wantB}]")
+          | none => ({ s with lost := true },
+              s!"fails concurrent-evict-not-atomic got[r={r} x={x} c={c} keys={keys}] run-then-evict[{wantA}] evict-then-run[{wantB}]")
+  | _, _, _, _, _ => ({ s with lost := true }, s!"fails run-did-not-return-results [{ans}]")
 
 def specRun (s : SState) (groups : List (List Key)) (withFlags : Bool) (ans : String) : SState × String :=
   if s.lost then (s, "skip") else
@@ -308,7 +420,10 @@ def specRun (s : SState) (groups : List (List Key)) (withFlags : Bool) (ans : St
     | some r, some x, some c, some mx, some keys =>
       let stripFlags (t : String) : String :=
         "|".intercalate ((t.splitOn "|").map (fun g => ",".intercalate ((g.splitOn ",").map (fun x => (x.splitOn ":").headD ""))))
-      if stripFlags r != stripFlags wantR then ({ s' with lost := true }, s!"fails value-differs-from-fresh got[{r}] want[{wantR}]")
+      if stripFlags r != stripFlags wantR then
+        ({ s' with lost := true },
+          if s.unmemoizedEvict then s!"fails concurrent-evict-missed-key-memoized-by-inflight-run: stale value in a later run got[{r}] want[{wantR}]"
+          else s!"fails value-differs-from-fresh got[{r}] want[{wantR}]")
       else if r != wantR then ({ s' with lost := true }, s!"fails changed-flag-of-root got[{r}] want[{wantR}]")
       else if x != wantX then ({ s' with lost := true }, s!"fails executed-set got[{x}] want[{wantX}]")
       else if c != wantC then ({ s' with lost := true }, s!"fails changed-flag got[{c}] want[{wantC}]")
@@ -319,7 +434,7 @@ def specRun (s : SState) (groups : List (List Key)) (withFlags : Bool) (ans : St
 
 def incrSpec (s : SState) (line ans : String) : SState × String :=
   match words line with
-  | ["new", _] => ({ s with cached := [], dirty := [], lost := false }, "skip")
+  | ["new", _] => ({ s with cached := [], dirty := [], lost := false, unmemoizedEvict := false }, "skip")
   | "def" :: rest => match parseDef rest with
     | some (k, n) => ({ s with defs := (k, n) :: s.defs.filter (fun p => p.1 != k) }, "skip")
     | none => (s, "skip")
@@ -345,6 +460,9 @@ def incrSpec (s : SState) (line ans : String) : SState × String :=
   | ["runc", gs] => match parseGroups gs with
     | some groups => specRun s groups false ans
     | none => (s, "skip")
+  | ["runev", g, ks, ch] => match g.toNat?, parseInts ks, parseChanges ch with
+    | some g, some ks, some chs => specRunEv s g ks chs ans
+    | _, _, _ => (s, "skip")
   | _ => (s, "skip")
 
 
